@@ -2,6 +2,7 @@
 // model and compares (shared by mon_hist.cpp and mon_cabi.cpp).
 #pragma once
 #include "model.hpp"
+#include <type_traits>
 using namespace vh;
 using namespace MASA;
 
@@ -18,8 +19,10 @@ static std::string g_focus = "store";
 
 static std::string rand_handle() {
   // handles are used verbatim: twins that differ only by a trailing / leading blank, by case or by a dash must stay distinct
-  static const char* H[] = {"A", "B", "C", "d e", "E-1", "twin-src", "A ", " A", "a", "E1"};
-  return H[R->below(R->below(3) == 0 ? 10 : 6)];
+  // ... and two long handles that share their first 64 characters
+  static const std::string LONG64(64, 'L');
+  static const std::string H[] = {"A", "B", "C", "d e", "E-1", "twin-src", "A ", " A", "a", "E1", LONG64 + "-one", LONG64 + "-two"};
+  return H[R->below(R->below(3) == 0 ? 12 : 6)];
 }
 static std::string pick_sol() {
   // weighted towards the stateful solutions the properties name
@@ -66,16 +69,20 @@ template <class S> struct Ops {
       m.h[h] = keep;
     }
   }
+  // the double registry is also reached through the C entry points: a quarter of the double-precision inits / selects go that way
+  bool via_c() const { return std::is_same<S, double>::value && R->below(4) == 0; }
   void init(const std::string& h, const std::string& sol) {
-    hist("masa_init<" + P + ">(\"" + h + "\",\"" + sol + "\")");
-    CAP.begin(); int rc = masa_init<S>(h, sol); std::string out = CAP.end();
+    const bool c = via_c();
+    hist(std::string(c ? "C masa_init" : "masa_init<" + P + ">") + "(\"" + h + "\",\"" + sol + "\")");
+    CAP.begin(); int rc = c ? ::masa_init(h.c_str(), sol.c_str()) : masa_init<S>(h, sol); std::string out = CAP.end();
     if (rc != 0) hviol("C12", "init-returned-nonzero", "masa_init returned " + std::to_string(rc));
     learn_after_init(h, sol);
     compare_identity(m, "C12", "after masa_init");
   }
   void select(const std::string& h) {
-    hist("masa_select_mms<" + P + ">(\"" + h + "\")");
-    CAP.begin(); masa_select_mms<S>(h); CAP.end();
+    const bool c = via_c();
+    hist(std::string(c ? "C masa_select_mms" : "masa_select_mms<" + P + ">") + "(\"" + h + "\")");
+    CAP.begin(); if (c) ::masa_select_mms(h.c_str()); else masa_select_mms<S>(h); CAP.end();
     m.sel = h;
     compare_identity(m, "C12", "after masa_select_mms");
     compare_selected(m, "C12", "isolation", "after selecting '" + h + "' its parameters are not the ones last set on it");
